@@ -13,7 +13,12 @@ class Injected(Exception):
     """The marked exception raised by a probe that a fault plan tells to fail."""
 
 
+class InjectedBase(BaseException):
+    """Injected failure that is NOT an Exception (e.g. a cancellation-like error raised inside a node)."""
+
+
 class State:
+    fault_base = False  # raise InjectedBase instead of Injected for node faults
     faults: set = set()  # node ids (tawazi side) that must raise
     fail_fns: set = set()  # function names that raise on every call, on BOTH sides (reference and tawazi)
     fail_args: set = set()  # symbolic leaves: a probe that receives one of them as a direct argument raises (both sides)
@@ -73,6 +78,8 @@ def mkprobe(name, shape=None, setup=False):
         if (node is not None and node in State.faults) or name in State.fail_fns or (
                 State.fail_args and any(x in State.fail_args for x in a if isinstance(x, Sym))):
             B.ev("FEXIT", token=tok, node=node, fn=name, ok=False)
+            if State.fault_base:
+                raise InjectedBase(node)
             raise Injected(node)
         if setup:
             base = Sym(name, a, tuple(sorted(k.items())), ("inv", next(State.inv)))
